@@ -41,7 +41,7 @@ META = {
             "fired timer, a kill time reached",
     "assumptions": ["the order of the lines written by the single simulation process is the order in which the kernel and the actors executed "
                     "(contexts/nthreads:1)"],
-    "ready": False,
+    "ready": True,
 }
 
 HARNESS = "clock.cpp"
